@@ -40,7 +40,7 @@ sE == Str(<<195, 169>>)  sSmile == Str(<<240, 159, 152, 128>>)
 sCtl == Str(<<1>>)       sQuote == Str(<<34>>)   sa1 == Str(<<97, 1>>)
 sTrue == Str(<<116, 114, 117, 101>>)   s12 == Str(<<49, 50>>)
 
-kEmpty == <<>>  ka == <<97>>  kA == <<65>>  kb == <<98>>  kab == <<97, 98>>  kE == <<195, 169>>
+kEmpty == <<>>  ka == <<97>>  kA == <<65>>  kb == <<98>>  kab == <<97, 98>>  kE == <<195, 169>>  kB == <<66>>
 
 ----------------------------------------------------------------------------
 SeqsUpTo(S, n) == UNION {[1..k -> S] : k \in 0..n}
@@ -55,8 +55,8 @@ AtomsTiny == {Null, u1, sa}
 AtomsSmall == {Null, True, u0, u1, u256, f15, sEmpty, sab}
 AtomsWide == {Null, True, False, u0, u1, i1, f1, u255, u256, u65536, u2p32, im1, im129, im32769, im2p31m1,
               f15, fm0, u2p53, u2p53p1, f2p53, sEmpty, sa, sA, sab, sE, sSmile, sCtl, sQuote}
-KeysSmall == {kEmpty, ka, kA, kab}
-KeysWide == {kEmpty, ka, kA, kb, kab, kE}
+KeysSmall == {kEmpty, ka, kA, kab, kB}
+KeysWide == {kEmpty, ka, kA, kb, kab, kE, kB}
 ObjValsSmall == {Null, u1, u256, sab}
 
 \* level-1 documents: containers of atoms
@@ -76,6 +76,24 @@ PairDocs ==
         Obj(<< <<ka, Arr(<<u1, u2>>)>> >>), Obj(<< <<ka, Arr(<<u2>>)>> >>), Obj(<< <<ka, Obj(<< <<kb, Null>> >>)>> >>),
         Obj(<< <<ka, Obj(<<>>)>> >>), Arr(<<Arr(<<>>)>>), Arr(<<Obj(<<>>)>>), Arr(<<Null, Null>>),
         Arr(<<fm0>>), Arr(<<u0>>), Arr(<<u2p53p1>>), Arr(<<f2p53>>), Arr(<<u2p53>>)}
+
+\* decimal lexemes for the floats of the universes (checked by BigNat!IsRN wherever they are used)
+FL == << <<f1.b, <<49, 46, 48>> >>, <<f15.b, <<49, 46, 53>> >>, <<fm0.b, <<45, 48, 46, 48>> >>, <<f0.b, <<48, 46, 48>> >>,
+        <<fm1.b, <<45, 49, 46, 48>> >>, <<f2p53.b, <<57, 48, 48, 55, 49, 57, 57, 50, 53, 52, 55, 52, 48, 57, 57, 50, 46, 48>> >>,
+        <<f2p64.b, <<49, 46, 56, 52, 52, 54, 55, 52, 52, 48, 55, 51, 55, 48, 57, 53, 53, 50, 101, 49, 57>> >> >>
+RECURSIVE HasNonFinite(_)
+HasNonFinite(d) ==
+  CASE d.k = "num" -> d.r = "f" /\ ~FIsFinite(BytesToBits(d.b))
+    [] d.k = "arr" -> \E i \in 1..Len(d.a) : HasNonFinite(d.a[i])
+    [] d.k = "obj" -> \E i \in 1..Len(d.o) : HasNonFinite(d.o[i][2])
+    [] OTHER -> FALSE
+
+\* structured pairs: the same shape with values that are equal in different encodings or
+\* differ in payload width at a non-last position, so that offset bookkeeping matters
+PairVals == {u1, i1, f1, u2, sab, Arr(<<u1>>), Arr(<<f1>>), Null}
+PairDocs2 == Objects({ka, kb}, PairVals, 2) \cup Arrays(PairVals, 2)
+             \cup {Obj(<< <<ka, v>>, <<kb, sab>>, <<kE, w>> >>) : v \in {u1, f1, Arr(<<u1>>), Arr(<<f1>>)}, w \in {u2, sab}}
+             \cup {Arr(<<v, sab, w>>) : v \in {u1, f1, Arr(<<u1>>), Arr(<<f1>>)}, w \in {u2, sab}}
 
 ----------------------------------------------------------------------------
 \* number boundary set: every width boundary of both integer encodings, +-1; the 2^53
